@@ -1,6 +1,7 @@
 package main
 
 import (
+	"strings"
 	"bytes"
 	"encoding/json"
 	"os"
@@ -82,6 +83,10 @@ func runC04(c *Ctx) {
 		}
 		return m
 	}()
+	c.Covers = func(name string) bool {
+		i := strings.Index(name, ".")
+		return i > 0 && pk[name[:i]]
+	}
 	c04Docs = docByFn
 	c.Replayer = replayArity
 	c.VerifyKnown = true
